@@ -167,7 +167,8 @@ OnProposal(self, rs, store, m) ==
                       /\ (repro \/ Len(store) >= imp.num - FirstBlock)    \* previous block persisted (else MissingPreviousPayload)
         pay   == IF repro /\ ~takeP THEN imp.pay ELSE m.p
         vote  == [view |-> vw, num |-> imp.num, pay |-> pay]
-        rs1   == [rs EXCEPT !.view = vw, !.phase = "commit", !.hv = vote,
+        hv1   == IF Weaken = "high_vote_keeps_older_same_number" /\ rs.hv # NoVote /\ rs.hv.num >= vote.num THEN rs.hv ELSE vote
+        rs1   == [rs EXCEPT !.view = vw, !.phase = "commit", !.hv = hv1,
                             !.props = IF m.p # "none" THEN rs.props \cup {[num |-> imp.num, pay |-> m.p]} ELSE rs.props]
         a     == ProcJust(rs1, store, m.j)
     IN IF fresh /\ ldr /\ m.valid /\ payOk
